@@ -45,6 +45,7 @@ type Alloc struct {
 	Start int    `json:"start"`
 	Len   int    `json:"len"`
 	Kind  string `json:"kind"`
+	Et    string `json:"et"`
 }
 
 type Post struct {
@@ -86,6 +87,9 @@ type Divergence struct {
 	Cfg    string `json:"cfg"`
 	Step   int    `json:"step"`
 	Op     string `json:"op"`
+	Sub    string `json:"sub"`
+	Entry  string `json:"entry"`
+	Engine string `json:"engine"`
 	Kind   string `json:"kind"`
 	Detail string `json:"detail"`
 	Path   string `json:"path"` // compact rendering of the program
